@@ -89,7 +89,16 @@ CharacterizeFails(e) ==
   LET w == e.seq
       ok(c) == Typing(c.toks, c.enz, c.role, w).ok
       accepting == {i \in 1..Len(e.cands) : ok(e.cands[i])}
-  IN IF ~IsNucWord(w) THEN {"S:C05Precondition"}
+      twin == IF "twin" \in DOMAIN e THEN e.twin ELSE [by |-> "none", res |-> [cls |-> "", exc |-> ""]]
+  IN \* the same plasmid in another letter case / at another origin is given the same type (or the same refusal)
+     (IF twin.by = "case" THEN Chk("C18:CaseInvCharacterize", twin.res.cls = e.res.cls /\ twin.res.exc = e.res.exc) ELSE {})
+     \cup (IF twin.by = "rot" /\ IsNucWord(w)
+           THEN IF \A i \in 1..Len(e.cands) : Len(e.cands[i].toks) > 0 => UniqueStart(e.cands[i].toks, w)
+                THEN Chk("C02:RotInvCharacterize", twin.res.cls = e.res.cls /\ twin.res.exc = e.res.exc)
+                ELSE {"S:C02Precondition"}
+           ELSE {})
+     \cup
+     IF ~IsNucWord(w) THEN {"S:C05Precondition"}
      ELSE IF e.res.exc = ""
           THEN Chk("C05:CharacterizeReturnsAcceptingCandidate",
                    /\ e.res.valid
